@@ -73,8 +73,8 @@ def strategy(tier):
 
 def fixed_cases(tier):
     base = [["func", "SmoothConvexFunction", {"L": 1}, None, False], ["init_point", None], ["stat", 0, None],
-            ["gd", 0, 0, 1.0], ["oracle", 0, 3], ["expr", "sqdist", 0, 1], ["cons", "init", 2, "<=", 1, None],
-            ["expr", "fdiff", 1, 0], ["metric", 3, None]]
+            ["gd", 0, 0, 1.0], ["oracle", 0, 3], ["expr", "sqdist", 0, 1], ["cons", "init", 3, "<=", 1, None],
+            ["expr", "fdiff", 2, 0], ["metric", 4, None]]
     out = []
     for acc in ("eval", "eval_dual"):
         for what in ("leafp", "derp", "dot", "exprc", "leafe", "pool_e", "cons_le", "cons_ge", "cons_eq", "pool_c",
